@@ -53,6 +53,8 @@ type gatherCfg struct {
 	// a rule without externals, which the rule documentation (and C19) describe
 	RewriteRaw []AddressRewriteRule `json:"rewrite_raw,omitempty"`
 	Depth        int      `json:"depth,omitempty"`
+	TCPReadBuf int  `json:"tcp_read_buf,omitempty"` // packets a TCPMux connection queues for its reader (0 = 8)
+	NoStart    bool `json:"no_start,omitempty"`     // (tcpclose model) the agent is not started: its candidates do not read yet
 	// NoFairCompletion: the configuration contains an exchange without a timeout of its own (a TLS handshake with a
 	// TURN server that never answers ends only when the cycle is cancelled): "eventually complete" is not claimed
 	NoFairCompletion bool `json:"no_fair_completion,omitempty"`
@@ -443,7 +445,11 @@ func newGatherWorld(raw json.RawMessage) *gatherWorld {
 	if cfg.TCPMux != "" {
 		a, _ := net.ResolveTCPAddr("tcp", cfg.TCPMux)
 		gw.lis = &fakeLis{ch: make(chan net.Conn), closed: make(chan struct{}), addr: a}
-		gw.tcpMux = NewTCPMuxDefault(TCPMuxParams{Listener: gw.lis, Logger: nopLogger{}, ReadBufferSize: 8})
+		rb := 8
+		if cfg.TCPReadBuf > 0 {
+			rb = cfg.TCPReadBuf
+		}
+		gw.tcpMux = NewTCPMuxDefault(TCPMuxParams{Listener: gw.lis, Logger: nopLogger{}, ReadBufferSize: rb})
 		opts = append(opts, WithTCPMux(gw.tcpMux))
 	}
 	a, err := NewAgentWithOptions(opts...)
